@@ -884,6 +884,222 @@ pub fn board_sweep_pads(w: &World, r: &mut Rng, board: usize, chip: u8, nsamp: u
     banks
 }
 
+/// a consistent event that the implementation accepts (so that one injected inconsistency is the
+/// only thing that decides the outcome)
+pub fn clean_base(w: &World, r: &mut Rng, run: Option<u32>) -> Ev {
+    loop {
+        let run = run.unwrap_or_else(|| r.pick(&[u32::MAX, u32::MAX, 11192, 11186, 11084, 10418, 9277, 12000]));
+        let big = r.chance(1, 8);
+        let ev = base_event(w, r, run, big);
+        if observe(ev.run, &ev.banks).starts_with("ok") {
+            return ev;
+        }
+    }
+}
+/// insert `extra` into the bank list of `base` at random positions, keeping their relative order
+pub fn inject(r: &mut Rng, base: &Ev, extra: &[Bank]) -> Vec<Bank> {
+    let mut pos: Vec<usize> = (0..extra.len()).map(|_| r.below(base.banks.len() as u64 + 1) as usize).collect();
+    pos.sort();
+    let mut out = Vec::new();
+    let mut k = 0;
+    for i in 0..=base.banks.len() {
+        while k < extra.len() && pos[k] == i {
+            out.push(extra[k].clone());
+            k += 1;
+        }
+        if i < base.banks.len() {
+            out.push(base.banks[i].clone());
+        }
+    }
+    out
+}
+fn pwb_installed(w: &World, run: u32, board: usize) -> bool {
+    let b = padwing::BoardId::try_from(&w.pwb[board].name[..]).unwrap();
+    alpha_g_detector::padwing::map::TpcPwbPosition::try_new(run, b).is_ok()
+}
+/// samples: quiet before the delay, the listed values after it
+fn wave(n_pre: usize, level: i16, post: &[i16]) -> Vec<i16> {
+    let mut v = vec![level; n_pre];
+    v.extend_from_slice(post);
+    v
+}
+
+/// For every check of try_from_banks: cases on an otherwise accepted event in which ONLY that check
+/// decides, with both relative orders of the banks involved.
+pub fn decisive(w: &World, r: &mut Rng, s: &mut Sink, reps: usize) {
+    const EXT: [i16; 10] = [i16::MIN, i16::MAX, i16::MIN + 1, i16::MAX - 1, 0, -1, 1, 3000, -3000, 1725];
+    for rep in 0..reps {
+        let run = [u32::MAX, 11192, 9277, u32::MAX][rep % 4];
+        let (wd, pd) = if run == u32::MAX { (100usize, 100u16) } else { (129usize, 115u16) };
+        let base = clean_base(w, r, Some(run));
+        let mut q = Rng::new(r.next());
+        // a wire name and two PWB boards the base does not use
+        let (b, c) = loop {
+            let b = r.below(w.a16.len() as u64) as usize;
+            let c = r.below(32) as u8;
+            if !base.kinds.iter().any(|k| matches!(k, Kind::Wire { board, chan, .. } if *board == b && *chan == c)) {
+                break (b, c);
+            }
+        };
+        let free_pwb = |r: &mut Rng, installed: bool, not: usize| loop {
+            let pb = r.below(w.pwb.len() as u64) as usize;
+            if pb != not
+                && pwb_installed(w, run, pb) == installed
+                && !base.kinds.iter().any(|k| matches!(k, Kind::Pad { board, .. } if *board == pb))
+            {
+                break pb;
+            }
+        };
+        let pb = free_pwb(r, true, usize::MAX);
+        let pb2 = free_pwb(r, true, pb);
+        let chip = r.below(4) as u8;
+        let name = wire_name(&w.a16[b].name, c);
+        let mac = w.a16[b].mac;
+        let ob = (b + 1 + r.below(w.a16.len() as u64 - 1) as usize) % w.a16.len();
+        let oc = (c + 1 + r.below(31) as u8) % 32;
+        let long = |r: &mut Rng, n: usize| -> Vec<u8> { adc_long(mac, 128 + c, &samples(r, n, -3000, 3000), None, None) };
+        let mut put = |r: &mut Rng, s: &mut Sink, label: &str, extra: &[Bank]| {
+            let banks = inject(r, &base, extra);
+            emit(s, "evt10", label, run, &banks);
+        };
+        let wb = |data: Vec<u8>| Bank { name: name.clone(), data };
+        // reference and single-bank decisions
+        let l300 = long(&mut q, 300);
+        put(r, s, "only-reference-wire-accepted", &[wb(l300.clone())]);
+        for bad in ["C09a", "XXXX", "C19A", "C09W"] {
+            put(r, s, "only-unknown-name", &[Bank { name: bad.to_string(), data: l300.clone() }]);
+        }
+        {
+            let mut d = l300.clone();
+            let k = d.len() - 1;
+            d[k] ^= 1;
+            put(r, s, "only-malformed-wire-payload", &[wb(d)]);
+            let mut d = l300.clone();
+            d.pop();
+            put(r, s, "only-malformed-wire-payload", &[wb(d)]);
+        }
+        let bvs = adc_long(mac, c % 16, &samples(&mut q, 300, -3000, 3000), None, None);
+        put(r, s, "only-bv-channel-long", &[wb(bvs)]);
+        put(r, s, "only-bv-channel-suppressed", &[wb(adc_short(c % 16, 699, 5))]);
+        put(r, s, "only-channel-mismatch-long", &[wb(adc_long(mac, 128 + oc, &samples(&mut q, 300, -3000, 3000), None, None))]);
+        put(r, s, "only-channel-mismatch-suppressed", &[wb(adc_short(128 + oc, 699, 5))]);
+        put(r, s, "only-board-mismatch-long", &[wb(adc_long(w.a16[ob].mac, 128 + c, &samples(&mut q, 300, -3000, 3000), None, None))]);
+        put(r, s, "only-suppressed-accepted", &[wb(adc_short(128 + c, 699, 5))]);
+        // duplicated name: every combination of {suppressed, long but empty after the delay, long with signal}
+        let variants = |r: &mut Rng| -> Vec<(&'static str, Vec<u8>)> {
+            vec![
+                ("supp", adc_short(128 + c, 699, 5)),
+                ("empty", { let n = r.pick(&[64usize, 65, wd - 1, wd]); long(r, n) }),
+                ("signal", { let n = r.pick(&[wd + 1, wd + 2, 300]); long(r, n) }),
+            ]
+        };
+        let (v1, v2) = (variants(&mut q), variants(&mut q));
+        for (n1, d1) in &v1 {
+            for (n2, d2) in &v2 {
+                let label = format!("only-duplicate-wire-{}-then-{}", n1, n2);
+                put(r, s, &label, &[wb(d1.clone()), wb(d2.clone())]);
+            }
+        }
+        // waveform length around the delay; sample extremes after the delay
+        for n in [64, wd - 1, wd, wd + 1, wd + 2] {
+            let lv = r.pick(&[-3000i16, 0, 3000, i16::MIN, i16::MAX]);
+            let post: Vec<i16> = (0..n.saturating_sub(wd)).map(|_| r.pick(&EXT)).collect();
+            let pre = n.min(wd);
+            put(r, s, "only-wire-length-at-delay", &[wb(adc_long(mac, 128 + c, &wave(pre, lv, &post), None, None))]);
+        }
+        for lv in [i16::MIN, -1, 0, i16::MAX] {
+            let d = adc_long(mac, 128 + c, &wave(wd, lv, &EXT), None, None);
+            put(r, s, "only-wire-sample-extremes", &[wb(d)]);
+        }
+        // pads
+        let pname = |i: usize| format!("PC{}", w.pwb[i].name);
+        let one = |i: usize, hdr_chip: u8, pay_board: usize, pay_chip: u8, n: u16, chans: &[(u16, Vec<i16>)]| -> Bank {
+            Bank { name: pname(i), data: chunk(w.pwb[i].dev, hdr_chip, 1, 0, &pwb_payload(w.pwb[pay_board].mac, b'A' + pay_chip, n, chans)) }
+        };
+        let ws = |r: &mut Rng, n: u16| samples(r, n as usize, -2048, 2047);
+        let n_ok = pd + 3;
+        put(r, s, "only-reference-pad-accepted", &[one(pb, chip, pb, chip, n_ok, &[(4, ws(&mut q, n_ok)), (79, ws(&mut q, n_ok))])]);
+        put(r, s, "only-fpn-reset-channels-sent", &[one(pb, chip, pb, chip, n_ok,
+            &[(1, ws(&mut q, n_ok)), (2, ws(&mut q, n_ok)), (3, ws(&mut q, n_ok)), (16, ws(&mut q, n_ok)), (29, ws(&mut q, n_ok)), (54, ws(&mut q, n_ok)), (67, ws(&mut q, n_ok))])]);
+        put(r, s, "only-fpn-reset-beside-pad-channels", &[one(pb, chip, pb, chip, n_ok,
+            &[(1, ws(&mut q, n_ok)), (4, ws(&mut q, n_ok)), (16, ws(&mut q, n_ok)), (17, ws(&mut q, n_ok)), (67, ws(&mut q, n_ok)), (68, ws(&mut q, n_ok)), (79, ws(&mut q, n_ok))])]);
+        for n in [0u16, 1, pd - 1, pd, pd + 1, pd + 2] {
+            put(r, s, "only-pad-length-at-delay", &[one(pb, chip, pb, chip, n, &[(5, ws(&mut q, n)), (30, ws(&mut q, n))])]);
+        }
+        {
+            let n = pd + EXT.len() as u16;
+            for lv in [i16::MIN, 0, i16::MAX] {
+                put(r, s, "only-pad-sample-extremes", &[one(pb, chip, pb, chip, n, &[(6, wave(pd as usize, lv, &EXT))])]);
+            }
+        }
+        // two chunk groups colliding on one pad: every combination of empty / non-empty after the delay, both orders
+        for n1 in [pd - 1, pd + 5] {
+            for n2 in [pd - 1, pd + 5] {
+                for hdr_chip in [chip, (chip + 1) % 4] {
+                    let g1 = one(pb, chip, pb, chip, n1, &[(9, ws(&mut q, n1))]);
+                    let g2 = one(pb2, hdr_chip, pb, chip, n2, &[(9, ws(&mut q, n2))]);
+                    put(r, s, "only-two-groups-collide-on-a-pad", &[g1.clone(), g2.clone()]);
+                    put(r, s, "only-two-groups-collide-on-a-pad", &[g2, g1]);
+                }
+            }
+        }
+        {
+            // same two groups on different channels: accepted, placement by the payload's board and chip
+            let g1 = one(pb, chip, pb, chip, n_ok, &[(9, ws(&mut q, n_ok))]);
+            let g2 = one(pb2, chip, pb, chip, n_ok, &[(10, ws(&mut q, n_ok))]);
+            put(r, s, "only-two-groups-same-payload-board-no-collision", &[g1.clone(), g2.clone()]);
+            put(r, s, "only-two-groups-same-payload-board-no-collision", &[g2, g1]);
+            let g3 = one(pb, chip, pb, (chip + 1) % 4, n_ok, &[(9, ws(&mut q, n_ok))]);
+            put(r, s, "only-payload-chip-differs-from-header", &[g3]);
+        }
+        {
+            let g = one(pb, chip, pb, chip, n_ok, &[(4, ws(&mut q, n_ok))]);
+            put(r, s, "only-pad-bank-renamed", &[Bank { name: pname(pb2), data: g.data.clone() }]);
+            let mut d = g.data.clone();
+            let k = d.len() - 6;
+            d[k] ^= 4;
+            put(r, s, "only-malformed-chunk", &[Bank { name: pname(pb), data: d }]);
+            // two-chunk packet: complete in both orders, each chunk alone, a chunk twice
+            let payload = pwb_payload(w.pwb[pb].mac, b'A' + chip, n_ok, &[(4, ws(&mut q, n_ok)), (5, ws(&mut q, n_ok))]);
+            let parts = split_chunks(w.pwb[pb].dev, chip, &payload, 2);
+            let cb = |k: usize| Bank { name: pname(pb), data: parts[k].clone() };
+            put(r, s, "only-two-chunks-in-order", &[cb(0), cb(1)]);
+            put(r, s, "only-two-chunks-reversed", &[cb(1), cb(0)]);
+            put(r, s, "only-missing-chunk", &[cb(0)]);
+            put(r, s, "only-missing-chunk", &[cb(1)]);
+            put(r, s, "only-duplicated-chunk", &[cb(0), cb(1), cb(1)]);
+            put(r, s, "only-duplicated-chunk", &[cb(0), cb(0), cb(1)]);
+        }
+        if let Some(nb) = (0..w.pwb.len()).find(|&i| !pwb_installed(w, run, i)) {
+            let g = one(nb, chip, nb, chip, n_ok, &[(4, ws(&mut q, n_ok))]);
+            put(r, s, "only-pad-board-not-installed", &[g]);
+            // only Fpn/Reset channels of a board that is not installed: nothing to map, accepted
+            let g = one(nb, chip, nb, chip, n_ok, &[(1, ws(&mut q, n_ok)), (16, ws(&mut q, n_ok))]);
+            put(r, s, "only-not-installed-board-without-pad-channels", &[g]);
+        }
+        // TRG
+        {
+            let keep: Vec<usize> = (0..base.banks.len()).filter(|&i| !matches!(base.kinds[i], Kind::Trg)).collect();
+            let no_trg = Ev { run, banks: keep.iter().map(|&i| base.banks[i].clone()).collect(), kinds: keep.iter().map(|&i| base.kinds[i].clone()).collect() };
+            emit(s, "evt10", "only-missing-trg", run, &no_trg.banks);
+            let t = trg_bank(r);
+            emit(s, "evt10", "only-trg-restored", run, &inject(r, &no_trg, &[t.clone()]));
+            let mut bad = t.clone();
+            bad.data[79] ^= 0x10;
+            emit(s, "evt10", "only-malformed-trg", run, &inject(r, &no_trg, &[bad]));
+            let mut bad = t.clone();
+            bad.data.pop();
+            emit(s, "evt10", "only-malformed-trg", run, &inject(r, &no_trg, &[bad]));
+            put(r, s, "only-duplicated-trg", &[t]);
+        }
+        put(r, s, "only-ignored-banks", &[
+            Bank { name: format!("B{}{:X}", w.a16[b].name, c % 16), data: q.bytes(7) },
+            Bank { name: "TRBA".into(), data: vec![] },
+            Bank { name: "MCVX".into(), data: q.bytes(3) },
+        ]);
+    }
+}
+
 pub fn run(tier: &str, seed: u64, s: &mut Sink) {
     let w = world();
     let mut r = Rng::new(seed ^ 0xC10);
@@ -913,6 +1129,8 @@ pub fn run(tier: &str, seed: u64, s: &mut Sink) {
             }
         }
     }
+    // 1b. per check: cases in which only that check decides
+    decisive(&w, &mut r, s, if thorough { 60 } else { 8 });
     // 2. consistent events
     let n_valid = if thorough { 6000 } else { 900 };
     for i in 0..n_valid {
@@ -927,8 +1145,13 @@ pub fn run(tier: &str, seed: u64, s: &mut Sink) {
         let mut tries = 0;
         while done < n_pert && tries < 20 * n_pert {
             tries += 1;
-            let run = pick_run(&mut r);
-            let mut ev = base_event(&w, &mut r, run, tries % 7 == 0);
+            // mostly on an accepted event, so that the injected inconsistency alone decides
+            let mut ev = if tries % 4 == 3 {
+                let run = pick_run(&mut r);
+                base_event(&w, &mut r, run, tries % 7 == 0)
+            } else {
+                clean_base(&w, &mut r, None)
+            };
             if let Some(label) = perturb(&w, &mut r, &mut ev, which) {
                 emit(s, "evt10", label, ev.run, &ev.banks);
                 done += 1;
